@@ -73,6 +73,7 @@ class ViewCell:
 class State:
     def __init__(self, env=None, heap=None, pc=None, ver=None, views=None, trace=None, tags=None):
         self.tags = tags if tags is not None else {}       # id of a pc term -> tag (see core.Scoped)
+        self.consumer_envs = []        # generator support: environments of suspended consumers
         self.env = env if env is not None else {}
         self.heap = heap if heap is not None else {}
         self.pc = pc if pc is not None else []
@@ -81,8 +82,10 @@ class State:
         self.trace = trace if trace is not None else []   # effect trace (ghost)
 
     def fork(self):
-        return State(dict(self.env), dict(self.heap), list(self.pc), dict(self.ver), dict(self.views),
-                     list(self.trace), dict(self.tags))
+        s = State(dict(self.env), dict(self.heap), list(self.pc), dict(self.ver), dict(self.views),
+                  list(self.trace), dict(self.tags))
+        s.consumer_envs = [dict(e) for e in self.consumer_envs]
+        return s
 
     def alloc(self, c, content):
         i = next(c._cell)
@@ -153,6 +156,7 @@ class Exec:
         self.covers = []             # (name, pc) reachability checks
         self.notes = []
         self._dec = [[[], 0]]
+        self._consumers = []
 
     # ------------------------------------------------------------------ obligations
     def oblige(self, kind, st, goal, node=None, note=''):
@@ -213,7 +217,7 @@ class Exec:
         for s, k, p in outs:
             if k == 'next':
                 res.append((s, 'return', None))
-            elif k in ('break', 'continue'):
+            elif k in ('break', 'continue', 'genbreak'):
                 raise EngineError('%s outside loop' % k)
             else:
                 res.append((s, k, p))
@@ -546,7 +550,7 @@ class Exec:
                         elif kind == 'break':
                             outs.append((s2, 'next', None))
                         else:
-                            outs.append((s2, kind, p))
+                            outs.append((s2, kind, p))      # includes 'genbreak': consumer left the generator
                 cur = nxt
             if chi <= clo:
                 self._skip_nested(node)
@@ -789,11 +793,98 @@ class Exec:
         raise Unsupported('cannot havoc %s = %r' % (name, v))
 
     # ------------------------------------------------------------------ generators (DESIGN 2.8)
+    # `for target in gen(args): body` is executed as a coroutine: the generator body runs in its own environment;
+    # at every `yield v` the consumer body runs right there on the same heap (so a buffer the generator re-uses
+    # between yields is seen by the consumer exactly when Python would show it), then the generator resumes.
+    def generator_def(self, call, st):
+        try:
+            f = self.eval_quiet(call.func, st)
+        except (Unsupported, EngineError, KeyError, _Raise):
+            return None
+        if not isinstance(f, FuncV):
+            return None
+        if f.kind == 'method':
+            ci, fn = f.target
+            if any(isinstance(n, (ast.Yield, ast.YieldFrom)) for n in ast.walk(fn)):
+                return f
+        if f.kind == 'closure' and any(isinstance(n, (ast.Yield, ast.YieldFrom)) for n in ast.walk(f.target)):
+            return f
+        return None
+
     def is_generator_call(self, call, st):
-        return False
+        return self.generator_def(call, st) is not None
+
+    def for_generator(self, node, st):
+        call = node.iter
+        f = self.eval(call.func, st)
+        args = [self.eval(a, st) for a in call.args]
+        kwargs = {k.arg: self.eval(k.value, st) for k in call.keywords}
+        if f.kind == 'method':
+            ci, fn = f.target
+            mi, clsname = source.load_module(ci.modname), ci.name
+            if f.self_val is not None:
+                args = [f.self_val] + args
+            closure_env = {}
+        else:
+            fn, mi, clsname, closure_env = f.target, f.mi, self.cur_class, dict(f.env)
+        genv = dict(closure_env)
+        genv.update(self.bind(fn, args, kwargs, st))
+        st.consumer_envs.append(st.env)
+        st.env = genv
+        saved = (self.mi, self.cur_class, self.fn_imports)
+        self.mi, self.cur_class, self.fn_imports = mi, clsname, dict(mi.imports)
+        self._consumers.append((node.target, node.body, saved, (mi, clsname)))
+        try:
+            outs = self.exec_block(fn.body, st)
+        finally:
+            self._consumers.pop()
+            self.mi, self.cur_class, self.fn_imports = saved
+        res = []
+        for s2, kind, p in outs:
+            if kind in ('next', 'return', 'genbreak'):
+                s2.env = s2.consumer_envs.pop()
+                res.append((s2, 'next', None))
+            else:
+                if s2.consumer_envs:
+                    s2.env = s2.consumer_envs.pop()
+                res.append((s2, kind, p))
+        return res
 
     def do_yield(self, node, st):
-        raise Unsupported('yield')
+        if isinstance(node, ast.YieldFrom):
+            raise Unsupported('yield from')
+        v = self.eval(node.value, st) if node.value is not None else None
+        if not self._consumers:
+            # the generator itself is the unit under verification: record the yielded values
+            st.trace.append(('yield', v))
+            return [(st, 'next', None)]
+        target, body, consumer_ctx, gen_ctx = self._consumers[-1]
+        genv = st.env
+        st.env = st.consumer_envs.pop()
+        saved = (self.mi, self.cur_class, self.fn_imports)
+        self.mi, self.cur_class, self.fn_imports = consumer_ctx
+        consumers = self._consumers
+        self._consumers = consumers[:-1]
+        try:
+            self.assign(target, v, st, node)
+            outs = self.exec_block(body, st)
+        finally:
+            self._consumers = consumers
+            self.mi, self.cur_class, self.fn_imports = saved
+        res = []
+        for s2, kind, p in outs:
+            if kind in ('next', 'continue'):
+                s2.consumer_envs.append(s2.env)
+                s2.env = dict(genv)
+                res.append((s2, 'next', None))
+            elif kind == 'break':
+                s2.consumer_envs.append(s2.env)
+                s2.env = dict(genv)
+                res.append((s2, 'genbreak', None))
+            else:
+                s2.consumer_envs.append(s2.env)
+                res.append((s2, kind, p))
+        return res
 
     # ------------------------------------------------------------------ expressions
     def eval_quiet(self, node, st):
@@ -1173,6 +1264,8 @@ class Exec:
             return NanRef('computed')          # IEEE: any arithmetic with NaN is NaN (a fresh object, not the singleton)
         if self.is_arr(a, st) or self.is_arr(b, st):
             f = lambda x, y: self.scalar_binop(op, x, y, st, node, arrays=True)
+            if isinstance(op, (ast.BitAnd, ast.BitOr)):
+                return self.broadcast2(a, b, f, st, node, kind='bool')
             return self.broadcast2(a, b, f, st, node)
         if isinstance(a, str) and isinstance(b, str) and isinstance(op, ast.Add):
             return a + b
@@ -1224,6 +1317,11 @@ class Exec:
             raise Unsupported('modulo')
         if isinstance(op, ast.Pow):
             return self.power(a, b, st, node)
+        if isinstance(op, (ast.BitAnd, ast.BitOr)):
+            ab = isinstance(a, bool) or (is_sym(a) and z3.is_bool(a))
+            bb = isinstance(b, bool) or (is_sym(b) and z3.is_bool(b))
+            if ab and bb:
+                return self.c.And(a, b) if isinstance(op, ast.BitAnd) else self.c.Or(a, b)
         raise Unsupported('operator %s' % type(op).__name__)
 
     def power(self, a, b, st, node):
@@ -1626,6 +1724,28 @@ class Exec:
 
     def store_arr(self, ref, a, sl, v, st, node):
         plan = self.parse_index(sl, a, st, node)
+        if plan and plan[0][0] == 'f' and all(p[0] == 's' and conc_int(p[1]) == 0 and _same(p[2], d)
+                                               for p, d in zip(plan[1:], a.shape[1:])):
+            mask = st.get(plan[0][1])
+            if isinstance(mask, Arr) and mask.kind == 'bool' and mask.ndim == 1 and self.is_arr(v, st) \
+                    and st.get(v).ndim == 1 and a.ndim == 2:
+                V = st.get(v)
+                if not _same(V.shape[0], a.shape[1]):
+                    self.oblige('safe.shape', st, as_term(V.shape[0]) == as_term(a.shape[1]), node)
+                if not _same(mask.shape[0], a.shape[0]):
+                    self.oblige('safe.shape', st, as_term(mask.shape[0]) == as_term(a.shape[0]), node)
+                st.put(ref, Arr(a.shape, lambda ix, a=a, mask=mask, V=V: self.c.If(mask.elem((ix[0],)), to_real(V.elem((ix[1],))),
+                                                                               a.elem(ix)), a.kind))
+                return
+            if isinstance(mask, Arr) and mask.kind == 'bool' and mask.ndim == 1 and not self.is_arr(v, st) \
+                    and not isinstance(v, (Ref, tuple, str)) and v is not None:
+                # a[mask, ...] = scalar   (boolean mask over the first axis)
+                if not _same(mask.shape[0], a.shape[0]):
+                    self.oblige('safe.shape', st, as_term(mask.shape[0]) == as_term(a.shape[0]), node)
+                vv = to_real(v) if a.kind == 'real' else v
+                st.put(ref, Arr(a.shape, lambda ix, a=a, mask=mask: z3.If(mask.elem((ix[0],)), vv, a.elem(ix))
+                                if is_sym(mask.elem((ix[0],))) else (vv if mask.elem((ix[0],)) else a.elem(ix)), a.kind))
+                return
         if any(p[0] in ('f', 'n') for p in plan):
             raise Unsupported('fancy store')
         V = st.get(v) if self.is_arr(v, st) else None
